@@ -90,6 +90,9 @@ def _second_run(obs, spec, second, lab, built, ctl, backend_kind, storage, stora
             elif time.monotonic() - t_stable >= window:
                 break
             time.sleep(0.02)
+    if second.get('uncache') and not storage_null:
+        # between the two calls the caller removes some entries through the same Lab object
+        lab.uncache_tasks([built.shared[i] for i in second['uncache'] if i in built.shared])
     n_trace = len(vu.read_trace(obs_dir))
     n_events = len(ctl.events)
     o2 = Obs()
